@@ -8,6 +8,7 @@ import (
 	"math/rand/v2"
 	"runtime"
 	"strings"
+	"time"
 
 	"github.com/magisterquis/curlrevshell/verifharness/mon"
 	"github.com/magisterquis/curlrevshell/verifharness/mon/bk"
@@ -122,6 +123,11 @@ func Apply(x *bk.Exec, s Sym, wk bk.WriterKind) {
 				x.Unhold(st)
 				break
 			}
+		}
+	case "wait":
+		// real time passes (Arg: Go duration) — for guards that might lapse with age
+		if d, err := time.ParseDuration(s.Arg); err == nil {
+			time.Sleep(d)
 		}
 	case "shutdown":
 		x.Shutdown()
@@ -303,7 +309,7 @@ func histString(h []Sym) string {
 
 // Run is the entry point.
 func Run(r *mon.Run) {
-	r.Rule = "gate mode: one broker per history; operations (attempts on in/out/io with related IDs, endings of each kind, holds inside the tear-down window, shutdown, probes) are executed one at a time, the verif hook parks every admission and release so the serialisation order is chosen by the harness; each decision is judged against a one-sided model (must-refuse), then probes check that I/O flows exactly to the live streams. A history is non-trivial if at least one attempt was decided in a state where some stream was attached, tearing down or the broker shut down; distinct = distinct (operations, decisions) traces. stress mode: free-running goroutines with random yields at the hook points, boundary history checked with porcupine"
+	r.Rule = "gate mode: one broker per history; operations (attempts on in/out/io with related IDs, endings of each kind, holds inside the tear-down window, shutdown, probes) are executed one at a time, the verif hook parks every admission and release so the serialisation order is chosen by the harness; each decision is judged against a one-sided model (must-refuse), then probes check that I/O flows exactly to the live streams. A history is non-trivial if at least one attempt was decided in a state where some stream was attached, tearing down or the broker shut down; distinct = distinct (operations, decisions) traces. engine aged: the tear-down and wrong-ID refusals again after 17 s (thorough also 35 s and 65 s) of real time inside a stuck tear-down or half-attached state. stress mode: free-running goroutines with random yields at the hook points, boundary history checked with porcupine"
 	r.Assumptions = []string{"the three verifPoint hook calls are outside b.mu, so parking there only stretches windows that exist", "attempts overlapping Do's cancellation may go either way (shutdown window)", "porcupine v1.3.0"}
 
 	var lists [][]Sym
@@ -315,6 +321,29 @@ func Run(r *mon.Run) {
 		lists = append(lists, genHistory(r.Rng("gate", i)))
 	}
 	runGate(r, "gate", lists, nd)
+	if r.WantEngine("aged") {
+		// the same refusals after real time has passed inside a stuck tear-down (one side
+		// cannot finish: a client that stopped reading) or half-attached state: a guard must
+		// not lapse with age.  17 s in quick; 35 s and 65 s as well in thorough.
+		var aged [][]Sym
+		waits := []string{"17s"}
+		if r.Thorough() {
+			waits = []string{"17s", "35s", "65s"}
+		}
+		in := func(k string) Sym { return Sym{Op: "in", Key: k} }
+		o := func(k string) Sym { return Sym{Op: "out", Key: k} }
+		for _, w := range waits {
+			wt := Sym{Op: "wait", Arg: w}
+			aged = append(aged,
+				[]Sym{in("k"), o("k"), {Op: "holdin"}, {Op: "endout", Arg: "eof"}, wt, o("x"), o("k"), in("k"), {Op: "io", Arg: "infirst"}, {Op: "unhold"}, {Op: "probe"}},
+				[]Sym{in("k"), o("k"), {Op: "holdout"}, {Op: "endin", Arg: "cancel"}, wt, in("x"), in("k"), o("k"), {Op: "io", Arg: "outfirst"}, {Op: "unhold"}, {Op: "probe"}},
+				[]Sym{in("k"), wt, o("x"), in("k"), in("x"), {Op: "io", Arg: "infirst"}, o("k"), {Op: "probe"}},
+				[]Sym{{Op: "io", Arg: "infirst"}, {Op: "holdin"}, {Op: "endout", Arg: "eof"}, wt, {Op: "io", Arg: "outfirst"}, o("k"), {Op: "unhold"}, {Op: "probe"}},
+			)
+		}
+		runGate(r, "aged", aged, len(aged))
+		r.Count("aged_histories", int64(len(aged)))
+	}
 
 	if r.Thorough() && r.WantEngine("enum") {
 		enumerate(r)
@@ -326,6 +355,9 @@ func Run(r *mon.Run) {
 		httpMapping(r)
 	}
 	r.Floor("decisions", 1000)
+	if r.WantEngine("aged") && !r.Replaying() {
+		r.Floor("aged_histories", 4)
+	}
 	r.Floor("must_refuse_decisions", 300)
 	r.Floor("probes_with_live_stream", 100)
 }
